@@ -119,3 +119,13 @@ def run(ck: Checker):
             gated = lf is not None and lf[0] <= 1 and lf[2] == 'concurrency'
         ok = gated
         ck.ob('C08-4', f, starts[0], ok, 'invocations are gated by a semaphore of size concurrency' if ok else f'`{norm_text(starts[0])[:60]}` starts the user coroutine at submission time: the number of running invocations is bounded only by the look-ahead window (2*concurrency + 3), not by `concurrency`')
+
+    # the bound of the hand-off queue is only a bound if the queue blocks correctly, and a source pull started ahead of the
+    # consumer is look-ahead the queue does not count
+    from . import c01, c09
+    from .common import QUEUES
+
+    with ck.as_rule('C08-5', 'the bounded hand-off really blocks and nothing is pulled outside it: SingleLane obligations (one lock region per operation, opposite ends, predicate of every wait under the lock — C01-4 / C09-6) and no source pull in flight across a yield of the sync-to-async adapter (C05-7)', minimum=4):
+        c01.check_singlelane(ck, 'C01-4')
+        c09.check_wait_discipline(ck, 'C09-6', modules=(QUEUES,), minimum=2)
+        c05.check_no_prefetch(ck, 'C05-7')
